@@ -68,6 +68,10 @@ def peers(tier):
                                  gex=[2048, 4096], label='pf', faults={('pf', 3, 0): ('trunc_close', 0)}),
         'probe-closed-hostkey': dict(kex=['curve25519-sha256'], key=['rsa-sha2-512', 'ssh-ed25519'], enc=['aes256-ctr'], mac=['hmac-sha2-256'], banner=b'SSH-2.0-OpenSSH_8.9p1',
                                      rsa_bits=2048, label='pf', faults={('pf', 2, 0): ('trunc_close', 0)}),
+        # empty entries in the name-lists (a doubled, a leading, a trailing comma): the names around them are reported the same way everywhere
+        'empty-entries': dict(kex=['', 'curve25519-sha256', 'diffie-hellman-group1-sha1'], key=['ssh-ed25519', '', 'ssh-rsa'], enc=['aes256-gcm@openssh.com', '', '3des-cbc', 'aes128-ctr'],
+                              mac=['', 'hmac-sha1', '', 'hmac-md5', 'hmac-sha2-256', ''], banner=b'SSH-2.0-OpenSSH_8.0', rsa_bits=2048),
+        'empty-entry-before-only-failure': dict(kex=['curve25519-sha256'], key=['ssh-ed25519'], enc=['aes256-ctr', '', '3des-cbc'], mac=['hmac-sha2-256-etm@openssh.com'], banner=b'SSH-2.0-OpenSSH_9.6'),
         'nonascii-banner': dict(kex=['curve25519-sha256'], key=['ssh-ed25519'], enc=['aes256-ctr'], mac=['hmac-sha2-256'], banner=b'SSH-2.0-Frob\x80SSH'),
     }
     # a peer whose answers depend on how many connections it has seen (MaxStartups, a rate limiter, one slow accept): connection k of
@@ -82,7 +86,7 @@ def peers(tier):
                                                  enc=['aes256-ctr'], mac=['hmac-sha2-256'], banner=b'SSH-2.0-OpenSSH_7.4', rsa_bits=2048, gex=[1024, 2048], label='pf', faults={('pf', k, at): fault})
             nth.append('conn-%d-%s' % (k, fname))
     if tier == 'quick':
-        keep = nth + ['clean', 'warn-only', 'fail-mixed', 'terrapin', 'unknown', 'gss', 'rsa2048', 'gex1024', 'ssh1', 'header', 'cert', 'nonascii-banner', 'strict-kex-multi', 'client-role', 'asym', 'asym-clean-s2c', 'probe-fault-rsa1024', 'probe-fault-rsa2048', 'cert-sha2-warn', 'cert-sha2-ca-warn', 'repeat-family-enc', 'repeat-family-mac-kex', 'probe-closed-gex', 'probe-closed-hostkey']
+        keep = nth + ['empty-entries', 'empty-entry-before-only-failure', 'clean', 'warn-only', 'fail-mixed', 'terrapin', 'unknown', 'gss', 'rsa2048', 'gex1024', 'ssh1', 'header', 'cert', 'nonascii-banner', 'strict-kex-multi', 'client-role', 'asym', 'asym-clean-s2c', 'probe-fault-rsa1024', 'probe-fault-rsa2048', 'cert-sha2-warn', 'cert-sha2-ca-warn', 'repeat-family-enc', 'repeat-family-mac-kex', 'probe-closed-gex', 'probe-closed-hostkey']
         ps = {k: ps[k] for k in keep}
     else:
         # every severity mix of the database per category as extra peers
